@@ -159,7 +159,7 @@ Proof.
       apply z_stmt_children; cbn [Vof ve vp vv vc vr vb vt]; auto.
     + intros inl k b Z. rewrite visit_block_S. pose proof (Zb inl b Z) as Z'.
       destruct (h_block H b) as [ss last]. rewrite stray_block_eq in Z' |- *. zhyp. zgoal.
-      * apply sumN_zero.
+      * apply sumN_map_zero. apply Forall_forall.
         apply (thread_Forall (fun s => stray_stmt inl s = 0%N)).
         intros k' s Hs. apply Is. exact (sumN_map_zero_inv _ _ H0 s Hs).
       * apply optN_map_zero; [|assumption]. intros l Zl.
@@ -170,4 +170,206 @@ Corollary run_rule_zero H : hooks_z H -> forall b, continue_in_loops b = true ->
 Proof.
   intros HZ b Hb. unfold continue_in_loops, stray_continues in *. apply N.eqb_eq in Hb. apply N.eqb_eq.
   unfold run_rule. destruct (visit_zero H HZ (w_block b)) as (_ & _ & _ & _ & _ & _ & Ib). apply Ib, Hb.
+Qed.
+
+(** * The hooks of the eight rules *)
+
+Ltac ssimp :=
+  repeat (progress (seq; cbn [map optN stray_expr stray_iseg stray_ebranch stray_args stray_tentry stray_stmt
+                              stray_sbranch stray_last stray_param];
+                    change nsum with sumN; change @nopt with @optN;
+                    rewrite ?sumN_cons, ?sumN_nil)).
+Ltac ssimp_in H :=
+  repeat (progress (rewrite ?stray_ty_eq, ?stray_expr_interp_eq, ?stray_expr_if_eq, ?stray_expr_table_eq, ?stray_expr_inst_eq,
+    ?stray_args_tuple_eq, ?stray_args_table_eq, ?stray_fbody_eq, ?stray_param_eq, ?stray_stmt_assign_eq,
+    ?stray_stmt_genfor_eq, ?stray_stmt_if_eq, ?stray_stmt_local_eq, ?stray_stmt_numfor_eq, ?stray_stmt_typedecl_eq,
+    ?stray_block_eq, ?stray_last_return_eq in H;
+    cbn [map optN stray_expr stray_iseg stray_ebranch stray_args stray_tentry stray_stmt
+                              stray_sbranch stray_last stray_param] in H;
+                    change nsum with sumN in H; change @nopt with @optN in H;
+                    rewrite ?sumN_cons, ?sumN_nil in H)).
+
+Lemma hooks_z_id_parts :
+  (forall e, stray_expr e = 0%N -> stray_expr ((fun e => e) e) = 0%N) /\
+  (forall inl (k : nat) s, stray_stmt inl s = 0%N -> stray_stmt inl (fst ((fun k s => (s, k)) k s)) = 0%N) /\
+  (forall inl b, stray_block inl b = 0%N -> stray_block inl ((fun b => b) b) = 0%N).
+Proof. repeat split; intros; assumption. Qed.
+
+(** remove_if_expression *)
+Lemma z_wrap_in_table e : stray_expr e = 0%N -> stray_expr (wrap_in_table e) = 0%N.
+Proof. intros Z. unfold wrap_in_table. destruct (can_return_multiple_values e); ssimp; lia. Qed.
+
+Lemma z_convert_if_branch c r acc : stray_expr c = 0%N -> stray_expr r = 0%N -> stray_expr acc = 0%N ->
+  stray_expr (convert_if_branch c r acc) = 0%N.
+Proof.
+  intros Zc Zr Za. unfold convert_if_branch.
+  pose proof (z_wrap_in_table r Zr). pose proof (z_wrap_in_table acc Za).
+  destruct (is_truthy (evaluate r)) as [[|]|]; unfold num_one; ssimp; lia.
+Qed.
+
+Lemma z_rw_if_expression e : stray_expr e = 0%N -> stray_expr (rw_if_expression e) = 0%N.
+Proof.
+  intros Z. destruct e; try exact Z. ssimp_in Z. zhyp.
+  destruct branches as [|b bs]; [ssimp; assumption|].
+  cbn [rw_if_expression]. revert H. generalize (b :: bs). intros l. induction l as [|[c r] l IH]; intros Hl.
+  - exact H0.
+  - cbn [fold_right]. ssimp_in Hl. zhyp. apply z_convert_if_branch; auto.
+Qed.
+
+Lemma hooks_z_if_expression : hooks_z hooks_if_expression.
+Proof. repeat split; cbn [hooks_if_expression h_expr h_prefix h_stmt h_block fst]; auto. apply z_rw_if_expression. Qed.
+
+(** remove_compound_assignment *)
+Lemma z_simplify_prefix p : stray_expr p = 0%N -> stray_expr (simplify_prefix p) = 0%N.
+Proof. intros Z. destruct p; try exact Z. destruct p; exact Z. Qed.
+
+Lemma z_remove_parens e : stray_expr e = 0%N -> stray_expr (remove_parens e) = 0%N.
+Proof. intros Z. destruct e; exact Z. Qed.
+
+Lemma z_rw_compound_assign_k inl k s : stray_stmt inl s = 0%N -> stray_stmt inl (fst (rw_compound_assign_k k s)) = 0%N.
+Proof.
+  intros Z. destruct s; try exact Z. ssimp_in Z. zhyp. unfold rw_compound_assign_k.
+  destruct var; cbn [fst]; unfold plain_assign, do_assign, local_temps; ssimp_in H; try (ssimp; lia).
+  - (* field *)
+    pose proof (z_simplify_prefix _ H). pose proof (z_remove_parens _ H).
+    destruct (prefix_needs_temp var); cbn [fst]; unfold plain_assign; ssimp; lia.
+  - (* index *) zhyp.
+    pose proof (z_simplify_prefix _ H). pose proof (z_remove_parens _ H). pose proof (z_remove_parens _ H1).
+    destruct (prefix_needs_temp var1), (key_needs_temp var2); cbn [fst]; unfold plain_assign; ssimp; lia.
+Qed.
+
+Lemma hooks_z_compound_assign : hooks_z hooks_compound_assign.
+Proof. repeat split; cbn [hooks_compound_assign h_expr h_prefix h_stmt h_block]; auto. apply z_rw_compound_assign_k. Qed.
+
+(** remove_floor_division *)
+Lemma z_rw_floor_division e : stray_expr e = 0%N -> stray_expr (rw_floor_division e) = 0%N.
+Proof. intros Z. destruct e; try exact Z. destruct op; try exact Z. ssimp_in Z. cbn [rw_floor_division]. ssimp. lia. Qed.
+
+Lemma z_rw_floor_division_stmt inl s : stray_stmt inl s = 0%N -> stray_stmt inl (rw_floor_division_stmt s) = 0%N.
+Proof.
+  intros Z. destruct s; try exact Z. destruct op; try exact Z. unfold rw_floor_division_stmt.
+  destruct (visit_zero _ hooks_z_compound_assign (w_stmt (SCompound BIDiv var v))) as (_ & _ & _ & _ & _ & Is & _).
+  apply Is, Z.
+Qed.
+
+Lemma hooks_z_floor_division : hooks_z hooks_floor_division.
+Proof.
+  repeat split; cbn [hooks_floor_division h_expr h_prefix h_stmt h_block fst]; auto.
+  - apply z_rw_floor_division.
+  - intros inl _ s. apply z_rw_floor_division_stmt.
+Qed.
+
+(** remove_interpolated_string *)
+Lemma z_interp_values st segs : sumN (map stray_iseg segs) = 0%N ->
+  sumN (map stray_expr (interp_values st segs)) = 0%N.
+Proof.
+  induction segs as [|[s|e] segs IH]; intros Z; ssimp_in Z; cbn [interp_values flat_map app] in *.
+  - reflexivity.
+  - apply IH, Z.
+  - zhyp. fold (interp_values st segs). cbn [map]. rewrite sumN_cons. rewrite (IH H0).
+    destruct st; unfold call_tostring; ssimp; lia.
+Qed.
+
+Lemma z_rw_interpolated_string st e : stray_expr e = 0%N -> stray_expr (rw_interpolated_string st e) = 0%N.
+Proof.
+  intros Z. destruct e; try exact Z. ssimp_in Z. unfold rw_interpolated_string.
+  pose proof (z_interp_values st segs Z) as Zv.
+  destruct segs as [|[s|v] [|sg segs]]; unfold call_tostring; ssimp; ssimp_in Z; try lia.
+Qed.
+
+Lemma hooks_z_interpolated_string st : hooks_z (hooks_interpolated_string st).
+Proof. repeat split; cbn [hooks_interpolated_string h_expr h_prefix h_stmt h_block fst]; auto. apply z_rw_interpolated_string. Qed.
+
+(** convert_luau_number, make_assignment_local *)
+Lemma hooks_z_luau_number : hooks_z hooks_luau_number.
+Proof.
+  repeat split; cbn [hooks_luau_number h_expr h_prefix h_stmt h_block fst]; auto.
+  intros e Z. destruct e; exact Z.
+Qed.
+
+Lemma hooks_z_const : hooks_z hooks_const.
+Proof.
+  repeat split; cbn [hooks_const h_expr h_prefix h_stmt h_block fst]; auto.
+  intros inl k s Z. destruct s; exact Z.
+Qed.
+
+(** remove_types *)
+Lemma z_clear_params ps : sumN (map stray_param (map clear_param ps)) = 0%N.
+Proof. apply sumN_map_zero. intros y Hy. apply in_map_iff in Hy as ([x t] & <- & _). reflexivity. Qed.
+
+Lemma z_clear_fbody inl f : stray_fbody inl f = 0%N -> stray_fbody inl (clear_fbody f) = 0%N.
+Proof.
+  destruct f as [ps va vt0 rt gen attrs body]. cbn [clear_fbody]. rewrite !stray_fbody_eq. intros Z. zhyp.
+  rewrite z_clear_params. cbn [optN]. lia.
+Qed.
+
+Lemma z_strip_types e : stray_expr e = 0%N -> stray_expr (strip_types e) = 0%N.
+Proof.
+  induction e; intros Z; try exact Z; cbn [strip_types].
+  - ssimp_in Z. zhyp. destruct (can_return_multiple_values e); [ssimp; assumption|auto].
+  - ssimp_in Z. zhyp. destruct (can_return_multiple_values e); [ssimp; assumption|auto].
+Qed.
+
+Lemma z_rw_types e : stray_expr e = 0%N -> stray_expr (rw_types e) = 0%N.
+Proof.
+  intros Z. apply z_strip_types in Z. unfold rw_types. destruct (strip_types e); try exact Z.
+  cbn [stray_expr] in *. apply z_clear_fbody, Z.
+Qed.
+
+Lemma z_rw_types_prefix p : stray_expr p = 0%N -> stray_expr (rw_types_prefix p) = 0%N.
+Proof.
+  induction p; intros Z; try exact Z. cbn [rw_types_prefix]. ssimp_in Z. zhyp. auto.
+Qed.
+
+Lemma z_rw_types_stmt inl s : stray_stmt inl s = 0%N -> stray_stmt inl (rw_types_stmt s) = 0%N.
+Proof.
+  intros Z. destruct s; try exact Z; cbn [rw_types_stmt]; ssimp_in Z; zhyp; ssimp; rewrite ?z_clear_params.
+  - apply z_clear_fbody, Z.
+  - lia.
+  - lia.
+  - apply z_clear_fbody, Z.
+  - destruct var; cbn [clear_param]. ssimp. lia.
+Qed.
+
+Lemma z_rw_types_block inl b : stray_block inl b = 0%N -> stray_block inl (rw_types_block b) = 0%N.
+Proof.
+  destruct b as [ss last]. cbn [rw_types_block]. rewrite !stray_block_eq. intros Z. zhyp. zgoal; [|assumption].
+  apply sumN_map_zero. intros s Hs. apply filter_In in Hs as [Hs _]. exact (sumN_map_zero_inv _ _ H s Hs).
+Qed.
+
+Lemma hooks_z_types : hooks_z hooks_types.
+Proof.
+  repeat split; cbn [hooks_types h_expr h_prefix h_stmt h_block fst].
+  - apply z_rw_types.
+  - apply z_rw_types_prefix.
+  - intros inl _ s. apply z_rw_types_stmt.
+  - apply z_rw_types_block.
+Qed.
+
+(** remove_attribute *)
+Lemma z_clear_attrs inl f : stray_fbody inl (clear_attrs f) = stray_fbody inl f.
+Proof. destruct f. reflexivity. Qed.
+
+Lemma hooks_z_attribute : hooks_z hooks_attribute.
+Proof.
+  repeat split; cbn [hooks_attribute h_expr h_prefix h_stmt h_block fst]; auto.
+  - intros e Z. destruct e; try exact Z. cbn [rw_attribute stray_expr] in *. rewrite z_clear_attrs. exact Z.
+  - intros inl _ s Z. destruct s; try exact Z; cbn [rw_attribute_stmt stray_stmt] in *; rewrite z_clear_attrs; exact Z.
+Qed.
+
+(** * The eight rules keep a tree in the domain of remove_continue *)
+Theorem lowering_rules_keep_domain : forall p, In p lowering_rules ->
+  forall b, continue_in_loops b = true -> continue_in_loops (snd p b) = true.
+Proof.
+  intros p Hp. cbn in Hp.
+  repeat destruct Hp as [<-|Hp]; try contradiction; cbn [snd]; apply run_rule_zero.
+  - exact hooks_z_compound_assign.
+  - exact hooks_z_if_expression.
+  - exact (hooks_z_interpolated_string false).
+  - exact (hooks_z_interpolated_string true).
+  - exact hooks_z_floor_division.
+  - exact hooks_z_luau_number.
+  - exact hooks_z_const.
+  - exact hooks_z_types.
+  - exact hooks_z_attribute.
 Qed.
